@@ -61,8 +61,12 @@ S15 = Struct("o"/Optional(Int16ub), "s"/S14, "r"/Optional(S0))
 S16 = Struct("k"/Byte, "d"/ProcessXor(this.k, Bytes(3)), "e"/ProcessRotateLeft(this.k, 2, Bytes(2)))
 S17 = Struct("n"/Byte, "d"/ProcessXor(b"\\x01\\x02\\x04", Bytes(this.n)), "e"/ProcessXor(b"\\x10\\x20", Prefixed(Byte, GreedyBytes)), "f"/ProcessRotateLeft(5, 3, Bytes(3)))
 S18 = BitStruct("u"/BitsInteger(4), "s"/BitsInteger(4, signed=True))
+S19 = Struct("g"/Byte, "a"/Byte, "d"/ProcessRotateLeft(this.a, this.g, Bytes(this.g * 2)))
+S20 = ProcessRotateLeft(4, 4, Bytes(4))
+S21 = ProcessRotateLeft(4, 2, Bytes(4))
+S22 = ProcessRotateLeft(12, this._params.n + 1, Bytes(12))
 '''
-POOL_NAMES = ['S%d' % i for i in range(19)]
+POOL_NAMES = ['S%d' % i for i in range(23)]
 
 
 def namespace():
